@@ -1,6 +1,8 @@
-# setup: regenerate theories/Gen from /repo, then a full .vo build of the whole development
+# setup: regenerate theories/Gen from /repo, then a full .vo build of the whole development.
+# Keep going past a file that does not compile and do not fail the setup because of it: every
+# check builds exactly the files it needs again and reports a broken obligation for its own property.
 all:
-	PYTHONPATH=/verif/tools /venv/bin/python -c "import common,sys; ok,log,g=common.build(None); print(log[-3000:]); sys.exit(0 if ok else 1)"
+	PYTHONPATH=/verif/tools /venv/bin/python -c "import common,sys; ok,log,g=common.build(None, keep_going=True); print(log[-3000:]); print('SETUP: full build', 'ok' if ok else 'INCOMPLETE (see above)')"
 clean:
 	-$(MAKE) -f Makefile.coq clean
 	rm -rf .work Makefile.coq Makefile.coq.conf _CoqProject
